@@ -16,6 +16,11 @@ def run(ctx, replay):
         raise vlib.Inconclusive("vacuity guard: the model without the lock should violate the property")
     racelog = ctx.path("race")
     ctx.drive(drv, ["c18", trace], timeout=1500, env={"GORACE": "halt_on_error=0 exitcode=0 log_path=" + racelog})
+    # the concurrent histories once more in a build without the race detector (its instrumentation changes who runs when)
+    trace2 = ctx.path("c18_plain.ndjson")
+    ctx.drive(ctx.build_harness(), ["c18", trace2, "conc"], timeout=900)
+    with open(trace, "a") as f:
+        f.write(open(trace2).read())
     events = vlib.read_ndjson(trace)
     res = ctx.tlc_trace("C18_Trace", "C18_Trace.cfg", trace, timeout=1700)
     cases, cur = [], None
